@@ -207,6 +207,8 @@ class Module:
         self.modname = modname
         self.source = source
         self.tree = _LoadNormaliser().visit(ast.parse(source, filename=path))
+        from . import alpha
+        self.alpha_renamed = alpha.normalise(self.tree, relpath)   # locals renamed back to their reference names
         self.functions: Dict[str, FuncInfo] = {}
         self.classes: Dict[str, ClassInfo] = {}
         self.imports: Dict[str, Tuple[str, Optional[str]]] = {}  # local -> (module, name|None)
